@@ -285,6 +285,45 @@ def rule_x3(repo, col):
     parents = m.parents()
     seen = set()
     n_out = 0
+
+    def guard_of(n, sf, resv):
+        """The nearest enclosing `X in result` test deciding the branch n is on: ('X', True) in its body, ('X', False) in its else part."""
+        cur, child = parents.get(n), n
+        while cur is not None and cur is not sf.node:
+            if isinstance(cur, ast.If) and isinstance(cur.test, ast.Compare) and len(cur.test.ops) == 1 and isinstance(cur.test.ops[0], ast.In) and norm(cur.test.comparators[0]) == resv:
+                if child in cur.body:
+                    return norm(cur.test.left), True, cur
+                if child in cur.orelse:
+                    return norm(cur.test.left), False, cur
+            child, cur = cur, parents.get(cur)
+        return None, None, None
+
+    # is the bound answer the solver's complete signed model, or a projection of it?
+    model_kind = "signed"
+    for st in walk_no_nested(f.node):
+        if isinstance(st, ast.Assign) and isinstance(st.targets[0], ast.Name) and st.targets[0].id == res0 and any(x is solves[0] for x in ast.walk(st.value)):
+            v_ = st.value
+            while isinstance(v_, ast.Call) and dotted(v_.func) in ("frozenset", "set", "list", "tuple", "sorted") and len(v_.args) == 1 and v_ is not solves[0]:
+                v_ = v_.args[0]
+            if v_ is solves[0]:
+                model_kind = "signed"
+            elif isinstance(v_, (ast.GeneratorExp, ast.ListComp, ast.SetComp)) and len(v_.generators) == 1 and v_.generators[0].iter is solves[0] and isinstance(v_.generators[0].target, ast.Name) \
+                    and norm(v_.elt) == v_.generators[0].target.id:
+                tv = v_.generators[0].target.id
+                conds = [norm(c_) for c_ in v_.generators[0].ifs]
+                if not conds:
+                    model_kind = "signed"
+                elif conds in (["%s > 0" % tv], ["0 < %s" % tv], ["%s >= 1" % tv]):
+                    model_kind = "true-variables"
+                else:
+                    raise AnalysisError("mpe_maxsat: the solver's answer is filtered by %s" % conds)
+            else:
+                raise AnalysisError("mpe_maxsat: binding of the solver's answer not understood: %s" % norm(st.value)[:80])
+    query_keys = set()
+    for sf, _, _ in scopes:
+        for lp_ in walk_no_nested(sf.node):
+            if isinstance(lp_, ast.For) and isinstance(lp_.target, ast.Tuple) and len(lp_.target.elts) == 3 and norm(lp_.iter) == "queries" and isinstance(lp_.target.elts[1], ast.Name):
+                query_keys.add(lp_.target.elts[1].id)
     for sf, wsrc, resv in scopes:
         prod = [n for n in walk_no_nested(sf.node) if isinstance(n, ast.AugAssign) and isinstance(n.op, ast.Mult) and isinstance(n.target, ast.Name)]
         for n in prod:
@@ -298,16 +337,12 @@ def rule_x3(repo, col):
             atom = norm(v.value.slice)
             okc, which = const_value(v.slice)
             # the guard: nearest enclosing `X in result` test on the branch taken
-            cur, child = parents.get(n), n
-            lit = None
-            while cur is not None and cur is not sf.node:
-                if isinstance(cur, ast.If) and isinstance(cur.test, ast.Compare) and len(cur.test.ops) == 1 and isinstance(cur.test.ops[0], ast.In) and child in cur.body \
-                        and norm(cur.test.comparators[0]) == resv:
-                    lit = norm(cur.test.left)
-                    break
-                child, cur = cur, parents.get(cur)
+            lit, pol, _g = guard_of(n, sf, resv)
             if lit is None or not okc:
                 raise AnalysisError("mpe_maxsat: guard of factor %s not found" % norm(n))
+            if not pol:
+                # the else part of `a in result`: the atom is not among the true literals, i.e. it is false (every variable of the CNF is assigned by the solver)
+                lit = "-%s" % lit if not lit.startswith("-") else lit[1:]
             want = 0 if lit == atom else 1 if lit == "-%s" % atom else None
             seen.add(want)
             col.decide("X3", m, n, want is not None and which == want, "literal %s in the solution contributes weights[..][%s]" % (lit, which),
@@ -316,16 +351,17 @@ def rule_x3(repo, col):
         # sign pairing of reported query facts
         for n in walk_no_nested(sf.node):
             if isinstance(n, ast.Expr) and isinstance(n.value, ast.Call) and isinstance(n.value.func, ast.Attribute) and n.value.func.attr == "append" and n.value.args:
-                cur, child = parents.get(n), n
-                lit = None
-                while cur is not None and cur is not sf.node:
-                    if isinstance(cur, ast.If) and isinstance(cur.test, ast.Compare) and len(cur.test.ops) == 1 and isinstance(cur.test.ops[0], ast.In) and child in cur.body \
-                            and norm(cur.test.comparators[0]) == resv:
-                        lit = norm(cur.test.left)
-                        break
-                    child, cur = cur, parents.get(cur)
+                lit, pol, g_ = guard_of(n, sf, resv)
                 if lit is None:
                     continue
+                if model_kind == "true-variables" and lit.lstrip("-") in query_keys:
+                    col.fail("X3", m, g_, "mpe_maxsat keeps only the true variables of the solver's model (%s) and then tests the query key `%s in %s`: query keys are signed (query(\\+b) has the key -b), "
+                             "so the test fails for every negated query and the fallback branch reports it whatever the solver decided - the reported assignment is not the solver's model"
+                             % (model_kind, lit, resv), construct="signed query key tested against true-variable set", function=sf.qualname)
+                    n_out += 1
+                    continue
+                if not pol:
+                    lit = "-%s" % lit if not lit.startswith("-") else lit[1:]
                 n_out += 1
                 arg = norm(n.value.args[0])
                 col.decide("X3", m, n, lit.startswith("-") == arg.startswith("-"), "reported fact %s has the sign of its literal %s" % (arg, lit),
